@@ -151,9 +151,16 @@ func (e *Exec) seg(name string) (segment.Segment, error) {
 	return s.seg, nil
 }
 
+// fileExists: something is at the path - or beside it under a name derived from it (a temporary
+// file the operation wrote first and meant to rename, say)
 func fileExists(p string) bool {
-	_, err := os.Stat(p)
-	return err == nil
+	if _, err := os.Stat(p); err == nil {
+		return true
+	}
+	if m, _ := filepath.Glob(p + "?*"); len(m) > 0 {
+		return true
+	}
+	return false
 }
 
 // pathExists: anything at the path, also a dangling or special link
